@@ -18,8 +18,18 @@ def run_case(c):
     else:
         root = build(c["tree"], AnyNode, nodes=nodes)
     NONE = 99          # token of Python's None (as an attribute value and as the searched value)
+    via = c.get("via")
     for k, v in c["attrs"]:
-        nodes[k].a = None if v == NONE else v
+        val = None if v == NONE else v
+        if via and not c.get("adv"):
+            # the attribute exists without being in the instance dictionary: a class attribute, or a property
+            base = type(nodes[k])
+            if via == "class":
+                nodes[k].__class__ = type("WithClassAttr", (base,), {"a": val})
+            else:
+                nodes[k].__class__ = type("WithProperty", (base,), {"a": property(lambda self, _v=val: _v)})
+        else:
+            nodes[k].a = val
     if c["value"] == NONE:
         c = dict(c, value=None)
     filt = (lambda n, s=set(c["filt"]): n.lbl in s) if c["filt"] is not None else None
